@@ -151,9 +151,6 @@ Definition ent_SetParams (w : eworld) (p : go_Params) : outcome (eworld * unit) 
   do s' <- ent_set_params (ew_ent w) (params_of_go p); Ok (with_ent w s', tt).
 
 (* ---- genesis (x/enterprise/genesis.go) ---- *)
-Definition go_modacc := option addr.
-Definition modacc_is_nil (m : go_modacc) : bool := match m with None => true | Some _ => false end.
-Definition modacc_addr (m : go_modacc) : addr := match m with Some a => a | None => go_zero_addr end.
 (* the module account exists from InitChain on (maccPerms in app.go; a translator fact) *)
 Definition ent_GetEnterpriseAccount (w : eworld) : go_modacc := Some ENT_MACC.
 Definition bank_GetAllBalances (w : eworld) (a : addr) : list go_coin := bank_SpendableCoins w a.
@@ -168,3 +165,5 @@ Definition ent_GetAllWhitelistedAddresses (w : eworld) : list addr := e_wl (ew_e
 Definition params_to_go (p : ent_params) : go_Params :=
   {| Params_EntSigners := ep_signers p; Params_Denom := ep_denom p; Params_MinAccepts := ep_min_accepts p;
      Params_DecisionTimeLimit := ep_time_limit p |}.
+
+Definition enterprise_ErrInvalidParams : Z := ERR_ENT.     (* fmt.Errorf / errors.New in Params.Validate *)
